@@ -298,7 +298,10 @@ impl Format {
                         }
                     }
                     Token::WeekdayDecimal => {
-                        todo!()
+                        return Err(HifitimeError::Parse {
+                            source: ParsingError::UnknownFormat,
+                            details: "parsing the weekday in decimal form is not supported",
+                        });
                     }
                     Token::MonthName | Token::MonthNameShort => {
                         match MonthName::from_str(sub_str) {
